@@ -179,6 +179,27 @@ type ViolationRec struct {
 // genCase produces case number idx of a worker's stream for a property. It is
 // a pure function of (seed, worker, idx).
 func genCase(prop string, seed uint64, worker, idx int) *Case {
+	c := genCase0(prop, seed, worker, idx)
+	// Sticky options: now and then a case takes over the options of the case
+	// before it EXACTLY (variant, context bytes, rule set): a caller issuing
+	// call after call with one Options value. What an implementation remembers
+	// about "the options of the last call" is only wrong when they recur.
+	if idx > 0 && c != nil && c.Op != nil && (prop == "C13" || prop == "C06" || prop == "C02") && !c.Op.Follow {
+		rs := NewRng(seed, lbl(prop), lbl("sticky"), uint64(worker), uint64(idx))
+		if rs.Chance(1, 8) {
+			if prev := genCase0(prop, seed, worker, idx-1); prev != nil && prev.Op != nil && prev.Op.Opt.Form == 0 && c.Op.Opt.Form == 0 {
+				o := prev.Op.Opt
+				if o.CS == 0 {
+					o.CS = prev.Op.Seed
+				}
+				c.Op.Opt = o
+			}
+		}
+	}
+	return c
+}
+
+func genCase0(prop string, seed uint64, worker, idx int) *Case {
 	r := NewRng(seed, lbl(prop), uint64(worker), uint64(idx))
 	switch prop {
 	case "C14":
